@@ -19,6 +19,7 @@ CONSTANTS MaxHeaders, MaxTypes, MaxResults, EXPORT
 Media == {"json", "ndjson", "any", "other", "malformed", "jsonq"}      \* jsonq = application/json;q=0.9 (parameters are ignored)
 Headers == UNION {[1..n -> UNION {[1..k -> Media] : k \in 1..MaxTypes}] : n \in 0..MaxHeaders}
 PathKinds == {"mh-b58", "mh-hex", "cid", "other-type", "no-type", "bad-key", "not-a-multihash",
+              "mh-b58-hexlike",    \* a base58 key that happens to consist of hex digits only (short identity multihashes give such keys): base58 is tried first
               "double-slash",      \* /multihash//<key>: the empty segment is cleaned away
               "empty-path"}        \* request target without any path (absolute form "GET http://host HTTP/1.1")
 
@@ -41,7 +42,7 @@ Negotiate(hs, prefer) ==
   ELSE IF Len(hs) = 0 THEN (IF prefer THEN "json" ELSE "err400")
   ELSE IF ~st.ok /\ ~st.nd THEN "err400"
   ELSE IF st.nd THEN "ndjson" ELSE "json"
-KeyOk(pk) == pk \in {"mh-b58", "mh-hex", "cid", "double-slash"}
+KeyOk(pk) == pk \in {"mh-b58", "mh-hex", "cid", "double-slash", "mh-b58-hexlike"}
 Outcome(hs, prefer, pk) == LET n == Negotiate(hs, prefer) IN IF n = "err400" \/ ~KeyOk(pk) THEN "err400" ELSE n
 
 Flat(hs) == UNION {{hs[i][j] : j \in 1..Len(hs[i])} : i \in 1..Len(hs)}
